@@ -698,6 +698,8 @@ pub struct Outcome {
     pub domain: String,
     pub witness: BTreeMap<String, Value>,
     pub soft: Option<String>,
+    /// statistics copied from an identical (expression, operand type, widths) run of another Bitcast kind
+    pub reused: bool,
 }
 
 pub fn outcome_of(p: &Prepared, stats: Stats, domain: &Domain) -> Outcome {
@@ -705,11 +707,11 @@ pub fn outcome_of(p: &Prepared, stats: Stats, domain: &Domain) -> Outcome {
     for (class, (_, _, input, got)) in &stats.bad {
         witness.insert(class.clone(), witness_json(p, class, *input, *got, &domain.describe()));
     }
-    Outcome { key: format!("{}{}", p.case.key(), if p.profile.is_empty() { String::new() } else { format!(":{}", p.profile) }), prepared_backend: p.case.backend.clone(), inst: p.case.inst.clone(), is_cast: p.case.is_cast, template: p.case.template.clone(), profile: p.profile.clone(), stats, domain: domain.describe(), witness, soft: p.soft.clone() }
+    Outcome { key: format!("{}{}", p.case.key(), if p.profile.is_empty() { String::new() } else { format!(":{}", p.profile) }), prepared_backend: p.case.backend.clone(), inst: p.case.inst.clone(), is_cast: p.case.is_cast, template: p.case.template.clone(), profile: p.profile.clone(), stats, domain: domain.describe(), witness, soft: p.soft.clone(), reused: false }
 }
 
 pub fn outcome_to_json(o: &Outcome) -> Value {
-    json!({"key": o.key, "backend": o.prepared_backend, "inst": o.inst, "is_cast": o.is_cast, "template": o.template, "profile": o.profile, "stats": o.stats.to_json(), "domain": o.domain, "witness": o.witness, "soft": o.soft})
+    json!({"key": o.key, "backend": o.prepared_backend, "inst": o.inst, "is_cast": o.is_cast, "template": o.template, "profile": o.profile, "stats": o.stats.to_json(), "domain": o.domain, "witness": o.witness, "soft": o.soft, "reused": o.reused})
 }
 
 pub fn outcome_from_json(v: &Value) -> Outcome {
@@ -724,6 +726,7 @@ pub fn outcome_from_json(v: &Value) -> Outcome {
         domain: v["domain"].as_str().unwrap_or("").to_string(),
         witness: v["witness"].as_object().map(|m| m.iter().map(|(k, v)| (k.clone(), v.clone())).collect()).unwrap_or_default(),
         soft: v["soft"].as_str().map(|s| s.to_string()),
+        reused: v["reused"].as_bool().unwrap_or(false),
     }
 }
 
